@@ -851,3 +851,141 @@ Proof.
     replace (length fs + length extras =? length fs)%nat with false; [rewrite andb_false_r; reflexivity|].
     symmetry. apply Nat.eqb_neq. destruct extras; [congruence|]. cbn [length]. lia.
 Qed.
+
+(* ---- decoding is bounded by its input (C16) ------------------------------- *)
+Lemma parse_dyn_length : forall bs items, parse_dyn bs = Some items ->
+  4 + 4 * N.of_nat (length items) + len (concat items) = len bs.
+Proof.
+  intros bs items P. unfold parse_dyn in P.
+  destruct (len bs <? 4) eqn:L4; [discriminate|]. apply N.ltb_ge in L4.
+  destruct (rd32 bs =? len bs) eqn:ET; [|discriminate]. apply N.eqb_eq in ET. cbn [negb] in P.
+  destruct (len bs =? 4) eqn:E4.
+  - apply N.eqb_eq in E4. inversion P; subst items. cbn. unfold len in *. cbn. lia.
+  - apply N.eqb_neq in E4.
+    destruct (len bs <? 8) eqn:L8; [discriminate|]. apply N.ltb_ge in L8.
+    set (off1 := rd32 (skipn 4 bs)) in *.
+    destruct (off1 mod 4 =? 0) eqn:M4; [|discriminate]. apply N.eqb_eq in M4.
+    destruct (off1 <? 8) eqn:O8; [discriminate|]. apply N.ltb_ge in O8. cbn [negb orb] in P.
+    destruct (len bs <? off1) eqn:LO; [discriminate|]. apply N.ltb_ge in LO.
+    set (n := N.to_nat (off1 / 4 - 1)) in *.
+    assert (Hn : (4 + 4 * n)%nat = N.to_nat off1) by (unfold n; lia).
+    destruct n as [|n'] eqn:En; [lia|].
+    cbn [rd_words] in P. fold off1 in P.
+    set (W := rd_words n' (skipn 4 (skipn 4 bs))) in *.
+    destruct (monotone ((off1 :: W) ++ [rd32 bs])) eqn:MO; [|discriminate].
+    assert (PI : items = slices (map N.to_nat (off1 :: W ++ [rd32 bs])) bs)
+      by (injection P as PI; symmetry; exact PI).
+    clear P. subst items.
+    change ((off1 :: W) ++ [rd32 bs]) with (off1 :: W ++ [rd32 bs]) in *.
+    assert (TL : rd32 bs <= len bs) by lia.
+    rewrite (concat_slices_N W off1 (rd32 bs) bs MO TL).
+    rewrite slices_length, map_length. cbn [length]. rewrite app_length.
+    assert (forall k b, length (rd_words k b) = k) as RL by (induction k; intros; cbn; auto).
+    unfold W. rewrite RL. cbn [length].
+    unfold len in *. rewrite firstn_length, skipn_length. lia.
+Qed.
+
+Lemma mapM_bounded : forall (dec : list N -> option val) (enc : val -> list N) xs vs,
+  mapM dec xs = Some vs ->
+  (forall x v, In x xs -> dec x = Some v -> len (enc v) <= len x) ->
+  len (concat (map enc vs)) <= len (concat xs) /\ length vs = length xs.
+Proof.
+  induction xs as [|x xs IH]; intros vs M Hb; cbn in M.
+  - inversion M. split; [cbn; lia|reflexivity].
+  - destruct (dec x) as [v|] eqn:E; [|discriminate].
+    destruct (mapM dec xs) as [r|] eqn:E2; [|discriminate]. inversion M; subst.
+    destruct (IH r eq_refl) as [I1 I2]; [intros; apply Hb; auto; right; assumption|].
+    cbn [map concat length]. rewrite !len_app. pose proof (Hb x v (or_introl eq_refl) E). split; lia.
+Qed.
+
+Lemma map2M_bounded : forall (dec : ty -> list N -> option val) (enc : ty -> val -> list N) fs,
+  Forall (fun f => forall x v, dec f x = Some v -> len (enc f v) <= len x) fs ->
+  forall xs vs, map2M dec fs xs = Some vs ->
+  len (concat (map2 enc fs vs)) <= len (concat xs) /\ length (map2 enc fs vs) = length xs /\ length xs = length fs.
+Proof.
+  intros dec enc fs H. induction H as [|f fs Hf Hfs IH]; intros xs vs M.
+  - destruct xs; cbn in M; inversion M. cbn. repeat split; lia.
+  - destruct xs as [|x xs]; [discriminate|]. cbn in M.
+    destruct (dec f x) as [v|] eqn:E; [|discriminate].
+    destruct (map2M dec fs xs) as [r|] eqn:E2; [|discriminate]. inversion M; subst.
+    destruct (IH xs r E2) as (I1 & I2 & I3). cbn [map2 concat length]. rewrite !len_app.
+    pose proof (Hf x v E). repeat split; lia.
+Qed.
+
+Lemma len_firstn_le : forall n (bs : list N), len (firstn n bs) <= len bs.
+Proof. intros. unfold len. rewrite firstn_length. lia. Qed.
+
+Lemma len_concat_firstn : forall k (l : list (list N)), len (concat (firstn k l)) <= len (concat l).
+Proof.
+  induction k as [|k IH]; intros l; [cbn; unfold len; cbn; lia|].
+  destruct l as [|x l]; [cbn; lia|]. cbn [firstn concat]. rewrite !len_app. specialize (IH l). lia.
+Qed.
+
+(* the value a reader accepts (strict or compatible) never encodes to more
+   bytes than the input had: nothing is read beyond the declared sizes *)
+Theorem mol_decode_bounded : forall t c bs v, decode c t bs = Some v -> len (encode t v) <= len bs.
+Proof.
+  induction t using ty_ind'; intros c bs v D; cbn [decode] in D.
+  - destruct bs as [|b [|? ?]]; try discriminate. inversion D. cbn. lia.
+  - destruct (fixed_size t) as [s|]; [|discriminate].
+    destruct (length bs =? n * s)%nat; [|discriminate].
+    destruct (mapM (decode c t) (chunks s n bs)) as [vs|] eqn:M; [|discriminate].
+    inversion D; subst v. cbn [encode].
+    destruct (mapM_bounded (decode c t) (encode t) _ _ M) as [B _]; [intros; eapply IHt; eauto|].
+    rewrite concat_chunks in B. pose proof (len_firstn_le (n * s) bs). lia.
+  - destruct (mapM fixed_size fs) as [ss|]; [|discriminate].
+    destruct (length bs =? _)%nat; [|discriminate].
+    destruct (map2M (decode c) fs (split_sizes ss bs)) as [vs|] eqn:M; [|discriminate].
+    inversion D; subst v. cbn [encode].
+    destruct (map2M_bounded (decode c) encode fs) with (xs := split_sizes ss bs) (vs := vs) as [B _]; auto.
+    { eapply Forall_impl; [|exact H]. cbv beta. intros f Hf x v Dx. eapply Hf; eauto. }
+    rewrite concat_split_sizes in B. pose proof (len_firstn_le (fold_right Nat.add 0%nat ss) bs). lia.
+  - destruct (fixed_size t) as [s|]; [|discriminate].
+    destruct (len bs <? 4) eqn:L4; [discriminate|]. apply N.ltb_ge in L4.
+    destruct (len bs =? _); [|discriminate].
+    destruct (mapM (decode c t) _) as [vs|] eqn:M; [|discriminate].
+    inversion D; subst v. cbn [encode].
+    destruct (mapM_bounded (decode c t) (encode t) _ _ M) as [B _]; [intros; eapply IHt; eauto|].
+    rewrite concat_chunks in B.
+    pose proof (len_firstn_le (N.to_nat (rd32 bs) * s) (skipn 4 bs)).
+    rewrite len_app. unfold len in *. rewrite le32_length. rewrite skipn_length in *. lia.
+  - destruct (parse_dyn bs) as [items|] eqn:P; [|discriminate].
+    destruct (mapM (decode c t) items) as [vs|] eqn:M; [|discriminate].
+    inversion D; subst v. cbn [encode].
+    destruct (mapM_bounded (decode c t) (encode t) _ _ M) as [B BL]; [intros; eapply IHt; eauto|].
+    rewrite dyn_frame_length, <- length_concat_sumN, map_length.
+    pose proof (parse_dyn_length _ _ P). lia.
+  - destruct (c && (length fs =? 0)%nat) eqn:C0.
+    + destruct ((4 <=? len bs) && (rd32 bs =? len bs)) eqn:C1; [|discriminate].
+      apply andb_true_iff in C1. destruct C1 as [C1 _]. apply N.leb_le in C1.
+      inversion D; subst v. apply andb_true_iff in C0. destruct C0 as [_ C0]. apply Nat.eqb_eq in C0.
+      destruct fs; [|discriminate]. cbn. unfold len in *. cbn. lia.
+    + destruct (parse_dyn bs) as [items|] eqn:P; [|discriminate].
+      destruct ((length fs <=? length items)%nat && _) eqn:C1; [|discriminate].
+      apply andb_true_iff in C1. destruct C1 as [C1 _]. apply Nat.leb_le in C1.
+      destruct (map2M (decode c) fs (firstn (length fs) items)) as [vs|] eqn:M; [|discriminate].
+      inversion D; subst v. cbn [encode].
+      destruct (map2M_bounded (decode c) encode fs) with (xs := firstn (length fs) items) (vs := vs) as (B & BL & BL2); auto.
+      { eapply Forall_impl; [|exact H]. cbv beta. intros f Hf x v Dx. eapply Hf; eauto. }
+      rewrite dyn_frame_length, <- length_concat_sumN, BL, BL2.
+      pose proof (parse_dyn_length _ _ P). pose proof (len_concat_firstn (length fs) items). lia.
+  - destruct bs as [|b bs]; [inversion D; cbn; lia|].
+    destruct (decode c t (b :: bs)) as [v'|] eqn:E; [|discriminate].
+    inversion D; subst v. cbn [encode]. eapply IHt; eauto.
+  - destruct (len bs <? 4) eqn:L4; [discriminate|]. apply N.ltb_ge in L4.
+    rewrite find_arm_lookup in D.
+    destruct (lookup_arm (rd32 bs) arms) as [t|] eqn:E; [|discriminate].
+    destruct (decode c t (skipn 4 bs)) as [v'|] eqn:E2; [|discriminate].
+    inversion D; subst v. cbn [encode]. rewrite find_arm_lookup, E.
+    pose proof (lookup_arm_In _ _ _ E) as I. rewrite Forall_forall in H.
+    pose proof (H _ I c (skipn 4 bs) v' E2) as R. cbn [snd] in R.
+    rewrite len_app. unfold len in *. rewrite le32_length. rewrite skipn_length in R. lia.
+Qed.
+
+(* every item slice the header parser hands to a field accessor lies inside the input *)
+Theorem accepted_offsets_in_range : forall bs items, parse_dyn bs = Some items ->
+  len (concat items) <= len bs /\ Forall (fun x => len x <= len bs) items.
+Proof.
+  intros bs items P. pose proof (parse_dyn_length _ _ P) as L. split; [lia|].
+  rewrite Forall_forall. intros x Hx. pose proof (length_concat_In items x Hx). unfold len in *. lia.
+Qed.
